@@ -167,14 +167,6 @@ Qed.
 Lemma flat_map_singleton {A B} (f : A -> B) (l : list A) : flat_map (fun x => [f x]) l = map f l.
 Proof. induction l as [|x l IH]; [reflexivity|]. cbn [flat_map map app]. rewrite IH. reflexivity. Qed.
 
-Lemma Forall_forallb_impl {A} (p : A -> bool) (P Q : A -> Prop) (l : list A) :
-  Forall (fun x => p x = true -> P x -> Q x) l -> forallb p l = true -> Forall P l -> Forall Q l.
-Proof.
-  induction 1 as [|x l Hx _ IH]; intros Hb HP; [constructor|].
-  cbn [forallb] in Hb. apply andb_true_iff in Hb as [Hb1 Hb2]. inversion HP; subst.
-  constructor; auto.
-Qed.
-
 (* ========================================================================================== *)
 (* The read-only walk                                                                          *)
 (* ========================================================================================== *)
@@ -198,83 +190,63 @@ Proof. unfold logs_of, log_of. cbn [flat_map]. rewrite app_nil_r. reflexivity. Q
 
 (* one entry of a table-like, as the walk and as the listing see it *)
 Lemma entry_agree (inline : bool) (k : key) (i : item) :
-  (inline = true -> item_is_none i = false) ->
   visit_item i = (MItem, AItem i) :: logs_of (rose_item i) ->
   (if like_yields inline i then visit_table_like_kv visit_item k i else [])
   = logs_of (match i with INone => [] | _ => [Rose (NKv k i) (rose_item i)] end).
 Proof.
-  intros Hin IH. unfold visit_table_like_kv.
-  destruct i as [|v|t|ts sp].
-  - destruct inline; [specialize (Hin eq_refl); discriminate|reflexivity].
-  - replace (like_yields inline (IValue v)) with true by (destruct inline; reflexivity).
-    rewrite logs_of_one, log_of_Rose, IH. reflexivity.
-  - replace (like_yields inline (ITable t)) with true by (destruct inline; reflexivity).
-    rewrite logs_of_one, log_of_Rose, IH. reflexivity.
-  - replace (like_yields inline (IAot ts sp)) with true by (destruct inline; reflexivity).
-    rewrite logs_of_one, log_of_Rose, IH. reflexivity.
+  intros IH. unfold visit_table_like_kv, like_yields.
+  destruct i as [|v|t|ts sp]; cbn [item_is_none negb].
+  - reflexivity.
+  - rewrite logs_of_one, log_of_Rose, IH. reflexivity.
+  - rewrite logs_of_one, log_of_Rose, IH. reflexivity.
+  - rewrite logs_of_one, log_of_Rose, IH. reflexivity.
 Qed.
 
-Definition visit_value_ok (v : value) : Prop :=
-  nip_value v = true -> visit_value v = log_of (rose_value v).
-Definition visit_item_ok (i : item) : Prop :=
-  nip_item i = true -> visit_item i = (MItem, AItem i) :: logs_of (rose_item i).
-Definition visit_table_ok (t : tbl) : Prop :=
-  nip_tbl t = true -> visit_table t = log_of (rose_tbl t).
+Definition visit_value_ok (v : value) : Prop := visit_value v = log_of (rose_value v).
+Definition visit_item_ok (i : item) : Prop := visit_item i = (MItem, AItem i) :: logs_of (rose_item i).
+Definition visit_table_ok (t : tbl) : Prop := visit_table t = log_of (rose_tbl t).
 
 Lemma visit_ok : (forall v, visit_value_ok v) /\ (forall i, visit_item_ok i) /\ (forall t, visit_table_ok t).
 Proof.
   apply tree_ind3; unfold visit_value_ok, visit_item_ok, visit_table_ok.
-  - (* scalar *) intros s r d _. reflexivity.
+  - (* scalar *) intros s r d. reflexivity.
   - (* array *)
-    intros vals tr c d sp IH Hwf.
+    intros vals tr c d sp IH.
     cbn [visit_value rose_value]. unfold visit_array. rewrite log_of_Rose. cbn [hooks_of node_hook value_meth app].
     do 2 f_equal. rewrite logs_of_flat. apply flat_map_Forall_ext.
-    cbn [nip_value] in Hwf.
-    refine (Forall_forallb_impl _ _ _ _ _ Hwf IH).
-    apply Forall_forall. intros it _ Hb Hit.
+    eapply Forall_impl; [|exact IH]. intros it Hit.
     destruct it as [|e| |]; try reflexivity.
-    rewrite logs_of_one. cbn [nip_item] in Hit. specialize (Hit Hb).
+    rewrite logs_of_one.
     cbn [visit_item rose_item] in Hit. rewrite logs_of_one in Hit. injection Hit as Hit. exact Hit.
   - (* inline table *)
-    intros items pre im dt d sp IH Hwf.
+    intros items pre im dt d sp IH.
     cbn [visit_value rose_value]. unfold visit_table_like. rewrite log_of_Rose. cbn [hooks_of node_hook value_meth app].
     do 3 f_equal. rewrite logs_of_flat. apply flat_map_Forall_ext.
-    cbn [nip_value] in Hwf.
-    refine (Forall_forallb_impl _ _ _ _ _ Hwf IH).
-    apply Forall_forall. intros [k i] _ Hb Hit. cbn [snd] in Hit.
-    apply andb_true_iff in Hb as [Hb1 Hb2].
-    apply entry_agree.
-    + intros _. apply negb_true_iff in Hb1. exact Hb1.
-    + apply Hit. exact Hb2.
-  - (* Item::None *) intros _. reflexivity.
+    eapply Forall_impl; [|exact IH]. intros [k i] Hit. cbn [snd] in Hit.
+    apply entry_agree. exact Hit.
+  - (* Item::None *) reflexivity.
   - (* Item::Value *)
-    intros v IH Hwf. cbn [visit_item rose_item]. rewrite logs_of_one. f_equal. apply IH. exact Hwf.
+    intros v IH. cbn [visit_item rose_item]. rewrite logs_of_one. f_equal. exact IH.
   - (* Item::Table *)
-    intros t IH Hwf. cbn [visit_item rose_item]. rewrite logs_of_one. f_equal. apply IH. exact Hwf.
+    intros t IH. cbn [visit_item rose_item]. rewrite logs_of_one. f_equal. exact IH.
   - (* Item::ArrayOfTables *)
-    intros ts sp IH Hwf. cbn [visit_item rose_item]. unfold visit_array_of_tables.
+    intros ts sp IH. cbn [visit_item rose_item]. unfold visit_array_of_tables.
     rewrite logs_of_one, log_of_Rose. cbn [hooks_of node_hook app]. do 2 f_equal.
     unfold logs_of. rewrite flat_map_map_l, flat_map_flat_map.
-    apply flat_map_Forall_ext. cbn [nip_item] in Hwf.
-    refine (Forall_forallb_impl _ _ _ _ _ Hwf IH).
-    apply Forall_forall. intros t _ Hb Ht. apply Ht. exact Hb.
+    apply flat_map_Forall_ext. exact IH.
   - (* table *)
-    intros items d im dt p sp IH Hwf.
+    intros items d im dt p sp IH.
     cbn [visit_table rose_tbl]. unfold visit_table_like. rewrite log_of_Rose. cbn [hooks_of node_hook t_items app].
     do 2 f_equal. rewrite logs_of_flat. apply flat_map_Forall_ext.
-    cbn [nip_tbl] in Hwf.
-    refine (Forall_forallb_impl _ _ _ _ _ Hwf IH).
-    apply Forall_forall. intros [k i] _ Hb Hit. cbn [snd] in Hit.
-    apply entry_agree.
-    + intros Hf; discriminate Hf.
-    + apply Hit. exact Hb.
+    eapply Forall_impl; [|exact IH]. intros [k i] Hit. cbn [snd] in Hit.
+    apply entry_agree. exact Hit.
 Qed.
 
 (* C20_visit *)
-Theorem visit_log : forall t, no_inline_placeholder t = true -> visit_document t = expected_log t.
+Theorem visit_log : forall t, visit_document t = expected_log t.
 Proof.
-  intros t Hwf. unfold visit_document, expected_log, nodes. f_equal.
-  apply (proj2 (proj2 visit_ok)). exact Hwf.
+  intros t. unfold visit_document, expected_log, nodes. f_equal.
+  apply (proj2 (proj2 visit_ok)).
 Qed.
 
 Lemma filter_hooks_of n : filter is_node_hook (hooks_of n) = [node_hook n].
@@ -284,30 +256,32 @@ Proof.
 Qed.
 
 (* the node-level hooks, in call order = the matching hook on each node, in document order *)
-Theorem visit_hooks : forall t, no_inline_placeholder t = true ->
+Theorem visit_hooks : forall t,
   filter is_node_hook (visit_document t) = map node_hook (nodes t).
 Proof.
-  intros t Hwf. rewrite (visit_log t Hwf). unfold expected_log.
+  intros t. rewrite (visit_log t). unfold expected_log.
   cbn [filter is_node_hook fst]. rewrite filter_flat_map.
   rewrite (flat_map_Forall_ext _ (fun n => [node_hook n])).
   - apply flat_map_singleton.
   - apply Forall_forall. intros n _. apply filter_hooks_of.
 Qed.
 
-(* the hypothesis is needed: `t = {}` after `doc["t"]["x"]` *)
+(* regression for finding F11 (repaired in /repo): `t = {}` after `doc["t"]["x"]` holds an
+   Item::None placeholder inside the inline table; before the repair
+   `impl TableLike for InlineTable::iter` yielded it and the walk called
+   visit_table_like_kv("x", Item::None) and visit_item(Item::None) for it *)
 Definition placeholder_witness : tbl :=
   Tbl [(mkKey [x74] None decor_default decor_default,
         IValue (VInline [(mkKey [x78] None decor_default decor_default, INone)] REmpty false false decor_default None))]
       decor_default false false None None.
 
-Theorem visit_placeholder_refuted :
-  exists t, no_inline_placeholder t = false
-            /\ filter is_node_hook (visit_document t) <> map node_hook (nodes t)
-            /\ In (MTableLikeKv, AKv (mkKey [x78] None decor_default decor_default) INone) (visit_document t).
+Lemma placeholder_not_visited :
+  ~ In (MItem, AItem INone) (visit_document placeholder_witness)
+  /\ map fst (visit_document placeholder_witness)
+     = [MDocument; MTable; MTableLike; MTableLikeKv; MItem; MValue; MInlineTable; MTableLike].
 Proof.
-  exists placeholder_witness. split; [reflexivity|]. split.
-  - intro H. apply (f_equal (@length event)) in H. vm_compute in H. discriminate H.
-  - cbn. repeat (first [left; reflexivity | right]).
+  split; [|reflexivity].
+  cbn. intros H. repeat (destruct H as [H|H]; [discriminate H|]). exact H.
 Qed.
 
 (* ========================================================================================== *)
@@ -396,8 +370,8 @@ Section MutProofs.
       intros [k i] Hi. cbn [snd] in Hi. unfold mut_item_ok in Hi.
       unfold visit_table_like_kv_mut. rewrite Hi.
       destruct (like_yields inline i) eqn:Hy; [reflexivity|].
-      (* not yielded: a table's Item::None entry, which map_item leaves alone *)
-      destruct i; try (destruct inline; discriminate Hy). reflexivity.
+      (* not yielded: an Item::None entry, which map_item leaves alone *)
+      unfold like_yields in Hy. destruct i; try discriminate Hy. reflexivity.
   Qed.
 
   Lemma mut_ok : (forall v, mut_value_ok v) /\ (forall i, mut_item_ok i) /\ (forall t, mut_table_ok t).
@@ -507,12 +481,12 @@ Proof.
 Qed.
 
 (* C20_visit_mut *)
-Theorem visit_mut_default : forall t, no_inline_placeholder t = true ->
+Theorem visit_mut_default : forall t,
   fst (visit_document_mut hook_default t) = expected_log t
   /\ snd (visit_document_mut hook_default t) = t.
 Proof.
-  intros t Hwf. rewrite mut_walk. cbn [fst snd]. split.
-  - apply visit_log. exact Hwf.
+  intros t. rewrite mut_walk. cbn [fst snd]. split.
+  - apply visit_log.
   - apply (proj2 (proj2 map_none_id)).
 Qed.
 
@@ -675,16 +649,16 @@ Proof.
 Qed.
 
 (* C20_once *)
-Theorem visit_once : forall t, no_inline_placeholder t = true ->
+Theorem visit_once : forall t,
   exists ps : list path,
     StronglySorted path_lt ps /\ NoDup ps
     /\ (forall p, In p ps <-> node_at t p <> None)
     /\ map Some (filter is_node_hook (visit_document t))
        = map (fun p => optmap node_hook (node_at t p)) ps.
 Proof.
-  intros t Hwf. destruct (nodes_positions t) as [ps [Hs [Hnd [Hall Hmap]]]].
+  intros t. destruct (nodes_positions t) as [ps [Hs [Hnd [Hall Hmap]]]].
   exists ps. repeat split; try assumption; try (apply Hall).
-  rewrite (visit_hooks t Hwf).
+  rewrite (visit_hooks t).
   rewrite <- (map_map (node_at t) (optmap node_hook)), Hmap, !map_map. reflexivity.
 Qed.
 
